@@ -186,6 +186,13 @@ func H_C19_sync() {
 	w.fleet.FaultBudget, w.fleet.FaultKinds = faults, 2
 	w.dcs.FaultBudget = faults
 	verifC19Guard(w, "m", "sync.restore-before-deregister", false)
+	// replicas under mysync's control that carry settings different from the master's, before the sync
+	relaxedBefore := 0
+	for _, h := range hosts[1:] {
+		if regBefore[h] {
+			relaxedBefore = verifnd.IteInt(verifC19Neq(w, "m", h), relaxedBefore+1, relaxedBefore)
+		}
+	}
 
 	adapter := app_dcs.NewOptimizationClusterAdapter(w.app.cluster, cs, "m")
 	err := w.app.optSyncer.Sync(adapter)
@@ -194,8 +201,17 @@ func H_C19_sync() {
 	touched := verifC19Touched(w, 0)
 	faulted := len(w.fleet.FaultsUsed) > 0 || w.dcs.FaultBudget < faults
 	if faulted {
-		// ordering oracle only (checked at every registry delete above)
+		// ordering oracle (checked at every registry delete above), and: a failing call may leave
+		// replicas as relaxed as they were, but the sync never relaxes one more replica while
+		// another one under its control is still relaxed
 		verifnd.Reach("C19.sync.faulted")
+		after := 0
+		for _, h := range hosts[1:] {
+			if regBefore[h] || regAfter[h] || touched[h] {
+				after = verifnd.IteInt(verifC19Neq(w, "m", h), after+1, after)
+			}
+		}
+		verifnd.Assert(verifnd.Or(after <= 1, after <= relaxedBefore), "sync.faulted.no-additional-relaxed")
 		return
 	}
 	if err == nil {
